@@ -195,6 +195,10 @@ def rules(ctx: Ctx) -> None:
     pname = sinit.params()[1] if len(sinit.params()) > 1 else None
     norm = prog.try_fn("utils.helpers.escape_identifier_name")
     stores = [n for n in prog.walk_fn(sinit) if isinstance(n, ast.Assign) and any(is_self_attr(t, "raw_name") for t in n.targets)]
+    if not stores:
+        ctx.ob("R14.4", "fallback:resolved-at-construction", False, sinit.loc(),
+               "Schema.__init__ does not store the schema name: the fallback chain (explicit name, configured default, placeholder) must be resolved when the object is "
+               "created - resolved on every read, one object means different schemas under different settings (and as a graph key it moves)")
     ctx.floor("stores of the schema name in Schema.__init__", len(stores), 1)
     kinds = set()
     for st in stores:
